@@ -97,6 +97,7 @@ inductive Err
   | panicKeyspace     -- panic("the keyspace can only be set with protocol 5 or higher")
   | namedBatch        -- error "named query values are not supported in batches"
   | frameTooBig       -- ErrFrameTooBig
+  | tooMany           -- tooMany(): more than 65535 bound values / batch statements (repair of KF-C03-5, KF-C03-6)
 deriving DecidableEq, Repr
 
 def maxFrameSize : Nat := 268435456
@@ -218,8 +219,16 @@ def wHeader (v fl : Nat) (stream : Int) (op : Nat) (len : Nat) : Bytes :=
    else [byteOf (stream % 256).toNat]) ++
   [byteOf op] ++ wUInt len
 
-/-- newFramer(nil, v); [trace()]; frame.buildFrame(framer, stream); framer.buf -/
-def encodeReq (v : Nat) (tracing : Bool) (stream : Int) (now : Int) (g : GReq) : Except Err Bytes :=
+/-- the count checks at the top of writeQueryFrame / writeExecuteFrame / writeBatchFrame (`tooMany`): a count
+    that does not fit the protocol's [short] is refused before anything is written -/
+def tooManyG : GReq → Bool
+  | .query _ p _ => decide (p.values.length > 65535)
+  | .execute _ p _ => decide (p.values.length > 65535)
+  | .batch _ stmts _ _ _ _ _ => decide (stmts.length > 65535) || stmts.any (fun s => decide (s.values.length > 65535))
+  | _ => false
+
+/-- the builders after their count checks -/
+def encodeReq0 (v : Nat) (tracing : Bool) (stream : Int) (now : Int) (g : GReq) : Except Err Bytes :=
   let pl := payloadOf g
   if pl.length > 0 ∧ v < 4 then .error .panicPayload else
   match wBody v now g with
@@ -229,6 +238,10 @@ def encodeReq (v : Nat) (tracing : Bool) (stream : Int) (now : Int) (g : GReq) :
     let hs := if v > 2 then 9 else 8
     if hs + full.length > maxFrameSize then .error .frameTooBig
     else .ok (wHeader v (headerFlags v tracing g) stream (opcode g) full.length ++ full)
+
+/-- newFramer(nil, v); [trace()]; frame.buildFrame(framer, stream); framer.buf -/
+def encodeReq (v : Nat) (tracing : Bool) (stream : Int) (now : Int) (g : GReq) : Except Err Bytes :=
+  if tooManyG g then .error .tooMany else encodeReq0 v tracing stream now g
 
 /-! ## with a compressor (newFramer(compressor, v), writeHeader's `f.flags &^ flagCompress` in
 writeStartupFrame / writeOptionsFrame, framer.finish) -/
@@ -242,7 +255,7 @@ def compressible : GReq → Bool
 /-- newFramer(comp, v); [trace()]; frame.buildFrame(framer, stream); framer.buf — `comp` is the
     compressor's Encode (taken as total: an Encode error is C18's). The size check of finish() comes
     BEFORE compression, on the uncompressed frame; the length written is that of the compressed body. -/
-def encodeReqC (comp : Option (Bytes → Bytes)) (v : Nat) (tracing : Bool) (stream : Int) (now : Int) (g : GReq) :
+def encodeReqC0 (comp : Option (Bytes → Bytes)) (v : Nat) (tracing : Bool) (stream : Int) (now : Int) (g : GReq) :
     Except Err Bytes :=
   let pl := payloadOf g
   if pl.length > 0 ∧ v < 4 then .error .panicPayload else
@@ -259,6 +272,10 @@ def encodeReqC (comp : Option (Bytes → Bytes)) (v : Nat) (tracing : Bool) (str
           .ok (wHeader v (headerFlags v tracing g + 1) stream (opcode g) (enc full).length ++ enc full)
         else .ok (wHeader v (headerFlags v tracing g) stream (opcode g) full.length ++ full)
       | none => .ok (wHeader v (headerFlags v tracing g) stream (opcode g) full.length ++ full)
+
+def encodeReqC (comp : Option (Bytes → Bytes)) (v : Nat) (tracing : Bool) (stream : Int) (now : Int) (g : GReq) :
+    Except Err Bytes :=
+  if tooManyG g then .error .tooMany else encodeReqC0 comp v tracing stream now g
 
 /-- the toy "compression algorithm" the harness configures (harness/cmd/c03: toyComp): a marker byte, then
     every byte xor 0x5A — not the identity, one byte longer, so that what is handed to Encode, where its
@@ -278,7 +295,7 @@ def bstmtVals : BStmt → List NVal
 /-- the requests gocql's builders refuse to build: custom payload below v4 (panic in
     writeCustomPayload), keyspace below v5 (panic in writeQueryParams / writePrepareFrame; the v1
     paths never look at it), a named value in a BATCH from v3 (error, CASSANDRA-10246) -/
-def Rejectable (v : Nat) : Req → Bool
+def Rejectable0 (v : Nat) : Req → Bool
   | Req.query _ p pl => (!pl.isEmpty && decide (v < 4)) || (decide (v ≠ 1) && p.keyspace.isSome && decide (v < 5))
   | Req.execute _ p pl => (!pl.isEmpty && decide (v < 4)) || (decide (v > 1) && p.keyspace.isSome && decide (v < 5))
   | Req.prepare _ ks pl => (!pl.isEmpty && decide (v < 4)) || (ks.isSome && decide (v < 5))
@@ -286,6 +303,17 @@ def Rejectable (v : Nat) : Req → Bool
       (!pl.isEmpty && decide (v < 4)) ||
       (decide (v > 2) && stmts.any (fun s => (bstmtVals s).any (fun x => x.name.isSome)))
   | _ => false
+
+/-- more than 65535 bound values (of a QUERY / EXECUTE or of one batch entry) or batch entries: refused since the
+    repair of KF-C03-5 / KF-C03-6 -/
+def tooManyR : Req → Bool
+  | Req.query _ p _ => decide (p.values.length > 65535)
+  | Req.execute _ p _ => decide (p.values.length > 65535)
+  | Req.batch _ stmts _ _ _ _ _ => decide (stmts.length > 65535) || stmts.any (fun s => decide ((bstmtVals s).length > 65535))
+  | _ => false
+
+/-- everything the builders refuse -/
+def Rejectable (v : Nat) (r : Req) : Bool := Rejectable0 v r || tooManyR r
 
 /-- what happened to a request handed to a connection (Conn.exec → buildFrame → write): an error / panic of
     the builder means nothing is written -/
